@@ -93,8 +93,14 @@ omit [CharZero K] in
 theorem d_parity (S : M3 K) (j i : Fin 5) : rotD r3 (fun a b => -S a b) j i = rotD r3 S j i :=
   rotD_neg r3 S j i
 
-/- f shell (7×7, entries cubic in S, constants √15, √10, √6): `f_orthogonal`, `f_composition` are NOT proved here
-   (stretch goal of the design); the f shell is covered by the oracle on the real code only. -/
+/-- Bundle for the shells that are proved.  FULL statement of the property (not proved here): for EVERY shell
+    s, p, d, f the matrix is orthogonal for every S with S Sᵀ = 1.  Missing: the f shell (7×7, entries cubic in S,
+    constants √15, √10, √6) - `f_orthogonal` / `f_composition` are the stretch goal of the design; the f shell is
+    covered by the oracle on the real code only.  (The s shell is the constant function 1: its matrix is (1).) -/
+theorem shells_orthogonal_partial (hr : r3 * r3 = 3) (S : M3 K) (hS : Orth3 S) :
+    (∀ i i' : Fin 3, sum3 (fun j => rotP S j i * rotP S j i') = if i = i' then 1 else 0) ∧
+    (∀ i i' : Fin 5, sum5 (fun j => rotD r3 S j i * rotD r3 S j i') = if i = i' then 1 else 0) :=
+  ⟨p_orthogonal S hS, d_orthogonal hr S hS⟩
 
 end shells
 
@@ -136,6 +142,17 @@ theorem hybrid_full_span_commutes (M : Matrix h b K) (hM' : Mᵀ * M = 1) (A : M
   rw [hM', Matrix.mul_one, Matrix.one_mul]
 
 end hybrids
+
+/-- non-vacuity: the sp3 hybrid matrix of the code (rows sp3-1..4, columns s, pz, px, py up to the code's shell order)
+    has orthonormal rows AND columns, so T3a-c apply to it for every rotation (T3d) -/
+def sp3M : Matrix (Fin 4) (Fin 4) ℚ :=
+  !![1/2, 1/2, 1/2, 1/2; 1/2, -1/2, 1/2, -1/2; 1/2, -1/2, -1/2, 1/2; 1/2, 1/2, -1/2, -1/2]
+
+example : sp3M * sp3Mᵀ = 1 ∧ sp3Mᵀ * sp3M = 1 := by
+  constructor <;>
+  · ext i j
+    fin_cases i <;> fin_cases j <;>
+      simp [sp3M, Matrix.mul_apply, Fin.sum_univ_four] <;> norm_num
 
 /-- T3e.  The executable model of `rot_orb` for hybrids is the matrix product of T3a–c. -/
 theorem hybridRot_is_product {K : Type} [CommRing K] (h b : Nat) (M A : Nat → Nat → K) :
